@@ -144,7 +144,11 @@ def lsp_session(wd, tcp, default_paths, rng, label, variant=None):
         s.initialize()
         a = os.path.join(files, "a.md")
         b = os.path.join(files, "b.rs")
-        ta = "# Title\n\nWe saw a tset here. Visit https://example.com/x or mail me@example.org now.\n\n" + model.make_text(rng)
+        ta = ("# Title\n\nWe saw a tset here. Visit https://example.com/x or mail me@example.org now.\n\n"
+              # text that names hosts, ports and files in every shape the lexer knows or nearly knows
+              "The service runs at http://[server]:8080/api and http://[::1]:80/ and https://[your-domain.example.com]/callback, "
+              "also ssh://git@host.example:22/repo.git, ftp://user:pw@files.example.net/x, file:///etc/hostname, www.example.com, "
+              "\\\\fileserver\\share, host.example:443, 192.168.0.1:8080 and mailto:someone@mail.example.\n\n" + model.make_text(rng))
         with open(a, "w") as f:
             f.write(ta)
         s.open(uri_for(a), ta, "markdown")
@@ -373,7 +377,11 @@ def library_session(wd, label):
     log = os.path.join(wd, "strace.log")
     out = os.path.join(wd, "report.json")
     cmd = ["strace", "-f", "-o", log, "-e", TRACE, os.path.join(os.path.dirname(os.path.dirname(os.path.abspath(__file__))), "target", "hv", "release", "hv"), "worker", "C16", "--tier", "quick", "--seed", "3", "--scale", "0.05", "--out", out, "--hb", os.path.join(wd, "hb")]
-    r = subprocess.run(cmd, stdout=subprocess.PIPE, stderr=subprocess.STDOUT, text=True, timeout=600)
+    env = dict(os.environ, HOME=os.path.join(wd, "home"), XDG_CONFIG_HOME=os.path.join(wd, "cfg"), XDG_DATA_HOME=os.path.join(wd, "data"), XDG_CACHE_HOME=os.path.join(wd, "cache"),
+               XDG_STATE_HOME=os.path.join(wd, "state"), TMPDIR=os.path.join(wd, "tmp"))
+    for d in ("home", "cfg", "data", "cache", "state", "tmp"):
+        os.makedirs(os.path.join(wd, d), exist_ok=True)
+    r = subprocess.run(cmd, stdout=subprocess.PIPE, stderr=subprocess.STDOUT, text=True, timeout=600, env=env)
     if r.returncode != 0:
         raise RuntimeError("library workload failed: %s" % r.stdout[-300:])
     return log, [out, out + ".tmp", os.path.join(wd, "hb")]
